@@ -146,6 +146,27 @@ static Probe probe_script(StringDictionary *d, const std::vector<Call> &script, 
   return pr;
 }
 
+// can this object be saved at all?  (isolated: a crash in save() of the reference state is symmetric)
+static bool probe_save(StringDictionary *d, const std::string &ctx) {
+  int ep[2]; if (pipe(ep)) { perror("pipe"); _exit(97); }
+  fflush(g_out);
+  pid_t pid = fork();
+  if (pid == 0) {
+    g_in_child = true; g_death_spec = nullptr; close(ep[0]); dup2(ep[1], 2);
+    arm_watchdog(5.0);
+    std::ostringstream os(std::ios::out | std::ios::binary); d->save(os);
+    _exit(0);
+  }
+  close(ep[1]);
+  std::string err; char buf[4096]; ssize_t n;
+  while ((n = read(ep[0], buf, sizeof buf)) > 0) if (err.size() < 20000) err.append(buf, (size_t)n);
+  close(ep[0]);
+  int status = 0; waitpid(pid, &status, 0);
+  if (WIFEXITED(status) && WEXITSTATUS(status) == 0) return true;
+  SymFailure f; f.call = 0; f.what = ctx + " save()"; f.report = err.substr(0, 3000); g_sym.push_back(f);
+  return false;
+}
+
 // ---- catalogue triples ---------------------------------------------------------------------------
 struct Triple { uint32_t set = 0; int kind = 0; int pidx = 0; StringSet ss; Params p; };
 static Triple make_triple(uint32_t set, int kind, int pidx) {
@@ -175,6 +196,10 @@ static std::string save_image(StringDictionary *d, size_t put_chunk) {
   sb.flush_put();
   g_stats["saves"]++;
   g_stats["put_overflows"] += (long)sb.st.overflows;
+  if (const char *dd = getenv("VERIF_DUMP_DIR")) { // debugging aid: keep every image written
+    static int n = 0; char path[512]; snprintf(path, sizeof path, "%s/run%llu-img%d.bin", dd, (unsigned long long)g_run_index, n++);
+    if (FILE *f = fopen(path, "wb")) { fwrite(file.data(), 1, file.size(), f); fclose(f); }
+  }
   return file;
 }
 struct LoadOut { StringDictionary *d = nullptr; size_t tell = 0, high_water = 0; bool failbit = false, eof = false; SimIoStats st; };
@@ -245,7 +270,7 @@ static int run_c14_plan(C14Plan &pl, Prng &r, bool c16_checks) {
     ref[c] = pr.run; skip[c] = pr.skip;
     delete d;
     const ScriptRun &sr = ref[c];
-    if (sr.pattern_changed_at >= 0) {
+    if (!c16_checks && sr.pattern_changed_at >= 0) {
       emit("violation", "pattern_buffer_modified", "client " + std::to_string(c) + " call " + std::to_string(sr.pattern_changed_at) + " " + call_str(pl.scripts[c][(size_t)sr.pattern_changed_at]) + " on " + triple_str(t) + " changed the caller's pattern buffer (isolated pass)");
       return 1;
     }
@@ -263,6 +288,8 @@ static int run_c14_plan(C14Plan &pl, Prng &r, bool c16_checks) {
   begin("var", "interleaved");
   StringDictionary *shared = make_object(t, pl.src, r);
   if (!shared) { emit("violation", "object_unavailable_second_time", triple_str(t)); return 1; }
+  bool savable = true;
+  if (c16_checks) { begin("ref", "save-before-unsupported"); savable = probe_save(shared, std::string(kind_name(t.kind)) + (pl.src.loaded ? " loaded" : " built")); begin("var", "interleaved"); }
   std::vector<ClientState> cs(k); std::vector<size_t> pos(k, 0);
   int maxopen = 0;
   for (size_t step = 0; step < pl.order.size(); step++) {
@@ -275,7 +302,7 @@ static int run_c14_plan(C14Plan &pl, Prng &r, bool c16_checks) {
     int open = 0; for (auto &s : cs) open += s.open_count();
     if (open > maxopen) maxopen = open;
     g_obs.add("ans:c" + std::to_string(c) + "." + std::to_string(pos[c]), cr.digest);
-    if (cr.pattern_changed) {
+    if (!c16_checks && cr.pattern_changed) {
       emit("violation", "pattern_buffer_modified", "client " + std::to_string(c) + " call " + std::to_string(pos[c]) + " " + call_str(call) + " on " + triple_str(t) + " changed the caller's pattern buffer");
       return 1;
     }
@@ -287,7 +314,7 @@ static int run_c14_plan(C14Plan &pl, Prng &r, bool c16_checks) {
     pos[c]++;
   }
   for (auto &s : cs) s.close_all();
-  if (c16_checks) {
+  if (c16_checks && savable) {
     // the object must still be savable and destroyable after the unsupported calls
     begin("var", "save-after-unsupported");
     std::string img = save_image(shared, 4096);
@@ -730,6 +757,7 @@ static int run_mode(const std::string &mode, uint64_t base, uint64_t index, cons
 
 
 int main(int argc, char **argv) {
+  disable_aslr(argv);
   // the library prints notices on stdout for unsupported calls: results go to a private fd
   int fd = dup(1);
   g_out = fdopen(fd, "w");
